@@ -261,6 +261,10 @@ def smonStep (m : SMon) (s s' : St) (ts : List String) (real : String)
             | _, _ => acc
           | _ => acc) m1
         (m2, firstFail (c06 ++ [v1] ++ v2 ++ [v3]))
+  | ["sv", _, "lockwait"] =>
+    -- C05 / C13: a save issued while another one is in flight must wait for it and then save (it may not be dropped:
+    -- dcp.close()'s final save would otherwise lose what was settled after the in-flight save took its dump)
+    (m, if real == "waiting" then "ok" else "FAIL C05.concurrent-save-dropped")
   | "save" :: _ | ["sv", _, "store", _] | ["sv", _, "dump"] | ["sv", _, "begin"] | ["sv", _, "unmark"] =>
     let writtenDocs := (words.filterMap fun w => match w with
       | "written" :: t :: _ => some (parseDocList t)
